@@ -388,4 +388,46 @@ func c15GetQuote(r *hx.Run) {
 		obs := "getquote ok=" + fmt.Sprint(hx.B(err == nil))
 		r.Emit(fmt.Sprintf("# C15.getquote %s trunc=%d", c.name, trunc), obs, fail, fmt.Sprintf("gq|%s|%d", c.name, trunc), true, "getquote")
 	}
+	// the parsed form through a quote PROVIDER (configfs path): supported / unsupported × what it returns — GetQuote is
+	// parse(GetRawQuote) here too: an unsupported provider is not consulted, an error stays an error, bytes are parsed as they are
+	for _, sup := range []bool{true, false} {
+		for _, kind := range []string{"sample", "sample-cut", "garbage", "nil"} {
+			for _, perr := range []bool{false, true} {
+				var b []byte
+				switch kind {
+				case "sample":
+					b = append([]byte{}, sample...)
+				case "sample-cut":
+					b = append([]byte{}, sample[:1000]...)
+				case "garbage":
+					b = []byte("not a quote")
+				}
+				p1, p2 := &scriptedProv{supported: sup, bytes: b, err: perr}, &scriptedProv{supported: sup, bytes: b, err: perr}
+				var rd [64]byte
+				var q any
+				var qerr, rerr error
+				var rawGot []byte
+				res, _ := hx.Guard(func() string { q, qerr = client.GetQuote(p1, rd); return "" })
+				res2, _ := hx.Guard(func() string { rawGot, rerr = client.GetRawQuote(p2, rd); return "" })
+				fail := ""
+				switch {
+				case res == "panic" || res2 == "panic":
+					fail = "crash in GetQuote / GetRawQuote with a quote provider"
+				case p1.called != p2.called:
+					fail = fmt.Sprintf("GetQuote consulted the provider %d time(s), GetRawQuote %d time(s) (supported=%v)", p1.called, p2.called, sup)
+				case rerr != nil && qerr == nil:
+					fail = fmt.Sprintf("GetRawQuote fails (%v) but GetQuote returns a quote (supported=%v)", rerr, sup)
+				case rerr == nil:
+					want, werr := abi.QuoteToProto(rawGot)
+					if (qerr == nil) != (werr == nil) {
+						fail = "GetQuote and parse(GetRawQuote) disagree on success"
+					} else if qerr == nil && !proto.Equal(q.(*pb.QuoteV4), want.(*pb.QuoteV4)) {
+						fail = "GetQuote result differs from parsing the raw quote"
+					}
+				}
+				obs := fmt.Sprintf("getquote ok=%d raw-ok=%d consulted=%d", hx.B(qerr == nil), hx.B(rerr == nil), p1.called)
+				r.Emit(fmt.Sprintf("# C15.getquote-provider supported=%v bytes=%s provider-error=%v", sup, kind, perr), obs, fail, fmt.Sprintf("gqp|%v|%s|%v", sup, kind, perr), true, "getquote-provider")
+			}
+		}
+	}
 }
